@@ -135,7 +135,10 @@ var W *World
 
 func NewWorld() *World {
 	w := &World{driver: make(chan struct{}, 1), MaxSteps: 1 << 40, deadCh: make(chan struct{})}
+	// goroutines left over from the previous world (expiry timers) may still look the world up
+	freeMu.Lock()
 	W = w
+	freeMu.Unlock()
 	return w
 }
 
@@ -340,9 +343,11 @@ func (w *World) Kill() {
 			close(w.deadCh)
 		}
 		w.mu.Unlock()
+		freeMu.Lock()
 		if W == w {
 			W = nil
 		}
+		freeMu.Unlock()
 		return
 	}
 	w.dead = true
